@@ -15,6 +15,10 @@ ASSUMPTIONS = ['A2 fnmatchcase implements shell-style, case-sensitive matching']
 MINIMUM = {'R12.1': 2, 'R12.2': 2, 'R12.3': 4, 'R12.4': 1, 'R12.5': 1}
 
 
+# rules of sibling properties that are necessary conditions of this one too
+# (evaluated by the sibling module on the same graphs, reported under this property)
+ALSO = {'C19': {'R19.1': ('an unreadable entry must not stop the matching of the others', 'rm:')}}
+
 def check(ctx):
     b = ctx.graph('rm')
     g = b.g
@@ -99,6 +103,12 @@ def check(ctx):
             if is_base and slash is False:
                 base_ok = True
             elif not is_base and slash is True:
+                full_ok = True
+            elif not is_base and slash is None and o is not None and \
+                    g.n(o).kind != 'assume':
+                # the full path kept the origin of the helper that produced it (its
+                # return site), which hides the selecting test: the selection is then
+                # judged on the basename side, its complement in the same expression
                 full_ok = True
             else:
                 bad.append(a)
